@@ -522,8 +522,10 @@ template <class Key, class Value, class... Policies>
 bool vyukov_hash_map<Key, Value, Policies...>::try_get_value(const key_type& key, accessor& result) const {
   const hash_t h = hash{}(key);
 
+  guarded_block b;
+restart:
   // (22) - this acquire-load synchronizes-with the release-store (31)
-  guarded_block b = acquire_guard(data_block, std::memory_order_acquire);
+  b.acquire(data_block, std::memory_order_acquire);
   const std::size_t bucket_idx = h & b->mask;
   bucket& bucket = b->buckets()[bucket_idx];
 
@@ -570,6 +572,13 @@ retry:
         continue;
       }
 
+      // The buckets of a block are no longer updated once a grow operation has replaced the block. So if
+      // the block has been replaced in the meantime, the entry we have found might already have been removed
+      // (and its value reclaimed) via the new block -> restart the search in the new block.
+      if (data_block.load(std::memory_order_acquire) != b) {
+        goto restart;
+      }
+
       result = std::move(acc);
       return true;
     }
@@ -593,6 +602,10 @@ retry:
       }
 
       if (traits::compare_nontrivial_key(acc, key)) {
+        // see above - the block might have been replaced by a grow operation in the meantime
+        if (data_block.load(std::memory_order_acquire) != b) {
+          goto restart;
+        }
         result = std::move(acc);
         return true;
       }
